@@ -205,7 +205,7 @@ functions* for every frame, mask, peak list, crop size and buffer count. -/
 theorem logCrop_def (L : ℚ → ℚ) (crop : ℤ → ℤ → ℚ) (h w y x : ℤ) :
     logCrop L crop h w y x = L (crop y x - minList (flat crop h w) + 1) := by
   unfold logCrop Gen.cropbuf_log_arg Gen.cropbuf_m
-  congr 1; ring
+  congr 1 <;> ring
 
 /-- what the full-frame method takes the logarithm of: pixel − frame minimum + 1 -/
 theorem logFrame_def (L : ℚ → ℚ) (frame : ℤ → ℤ → ℚ) (fy fx y x : ℤ) :
